@@ -44,7 +44,13 @@ type Record struct {
 func DecodeRecord(r io.Reader) (RecordType, []byte, uint32, error) {
 	var header [4]byte
 	if _, err := io.ReadFull(r, header[:]); err != nil {
-		if errors.Is(err, io.EOF) || errors.Is(err, io.ErrUnexpectedEOF) {
+		if errors.Is(err, io.ErrUnexpectedEOF) {
+			// 1-3 bytes of a length field: a torn tail, not a clean end of log.
+			// Reporting it as partial lets VerifyDir truncate it, so that records
+			// appended after recovery do not land behind the stray bytes.
+			return 0, nil, 0, utils.ErrPartialRecord
+		}
+		if errors.Is(err, io.EOF) {
 			return 0, nil, 0, io.EOF
 		}
 		return 0, nil, 0, err
